@@ -35,7 +35,12 @@ def sh(cmd, cwd, timeout=300):
 def main():
     pid, x = sys.argv[1], sys.argv[2]
     nosuite = "--no-suite" in sys.argv
-    src = f"/tmp/seeded_in/{pid}/{x}"
+    indir = "/tmp/seeded_in"
+    if "--in" in sys.argv:
+        indir = sys.argv[sys.argv.index("--in") + 1]
+    src = f"{indir}/{pid}/{x}"
+    if "--as" in sys.argv:  # store under another letter (second round: A->C, B->D)
+        x = sys.argv[sys.argv.index("--as") + 1]
     patch = os.path.join(src, "patch.diff")
     demos = glob.glob(os.path.join(src, "*_test.go"))
     if not os.path.exists(patch) or not demos:
